@@ -36,13 +36,17 @@ Definition top_fail (fs : list sframe) : option nat :=
   match fs with f :: _ => sf_fail f | [] => None end.
 Definition top_pos (fs : list sframe) : nat := match fs with f :: _ => sf_pos f | [] => 0 end.
 
+(* a new exception replaces the one a finally block of this fiber may be propagating *)
+Definition clear_fails (fs : list sframe) : list sframe :=
+  map (fun f => mkSF (sf_fn f) (sf_pos f) None) fs.
+
 Definition sstep (s : sst) (o : op) : sst :=
   let fs := s_frames s in
   match o with
   | OCall pc fd => mkS (mkSF fd 0 None :: set_top_pos fs pc) (s_callers s) false None
   | OReturn => match fs with _ :: ((_ :: _) as r) => mkS r (s_callers s) false None | _ => s end
-  | OThrow pc => mkS (set_top_fail fs (Some pc)) (s_callers s) true None
-  | OFail st pc => mkS (set_top_fail fs (Some pc)) (s_callers s) true (Some st)
+  | OThrow pc => mkS (set_top_fail (clear_fails fs) (Some pc)) (s_callers s) true None
+  | OFail st pc => mkS (set_top_fail (clear_fails fs) (Some pc)) (s_callers s) true (Some st)
   | OUnwind fc hc _ =>
     if (Nat.leb 1 fc && Nat.leb fc (List.length fs))%bool then
       let kept := struncate fc fs in
@@ -84,8 +88,8 @@ Definition spec_uncaught (s : sst) : option (list entry) :=
    - a raised exception is followed by the handler that takes it (OUnwind) or by nothing (uncaught);
    - OUnwind only answers a raised exception and names a frame count that exists;
    - ORethrow ends a finally block that is propagating a failure of the innermost call;
-   - while a finally block is propagating a failure no NEW exception is raised in this fiber and the
-     propagating call does not return (the model keeps one failure per fiber, like the VM). *)
+   - a NEW exception raised while a finally block of this fiber is propagating a failure replaces that
+     failure (the model keeps one failure per fiber, like the VM); the propagating call does not return. *)
 Definition no_pending (fs : list sframe) : bool :=
   forallb (fun f => match sf_fail f with None => true | Some _ => false end) fs.
 
@@ -98,7 +102,7 @@ Definition op_okb (s : sst) (o : op) : bool :=
     match o with
     | OCall _ _ | OFiberCall _ _ => match fs with [] => false | _ => true end
     | OReturn => match fs with f :: _ :: _ => match sf_fail f with None => true | _ => false end | _ => false end
-    | OThrow _ | OFail _ _ => no_pending fs && match fs with [] => false | _ => true end
+    | OThrow _ | OFail _ _ => match fs with [] => false | _ => true end
     | ORethrow _ => match top_fail fs with Some _ => true | None => false end
     | OFiberEnd => match s_callers s with [] => false | _ => true end
     | OUnwind _ _ _ => false
@@ -113,12 +117,14 @@ Fixpoint wf_ops (s : sst) (ops : list op) : bool :=
 
 (* KNOWN CLASS builtin_failure_no_error_ip (a finding while one of the two sites does not record the error
    position): a failure raised at a site that does not record is taken by a finally-only handler of the SAME
-   call.  Empty when both sites record (LinesProofs.known_class_empty). *)
+   call, or is raised while a finally block is propagating another failure.  Empty when both sites record (LinesProofs.known_class_empty). *)
 Definition kc_stepb (fl : flags) (s : sst) (o : op) : bool :=
   match o with
   | OUnwind fc false _ =>
     s_raised s && Nat.eqb fc (List.length (s_frames s))
     && match s_site s with Some st => negb (records fl st) | None => false end
+  | OFail st _ =>      (* raised at a site that does not record, while the position of another failure is kept *)
+    negb (records fl st) && negb (no_pending (s_frames s))
   | _ => false
   end.
 Fixpoint known_classb (fl : flags) (s : sst) (ops : list op) : bool :=
